@@ -563,7 +563,23 @@ def ok_edge_of(body, call, extra_transparent=None):
             e = try_edges(body, c.bb)
             if e:
                 edges.append(e[0])
-    return edges
+    return _nearest_first(body, call.bb, edges)
+
+
+def _nearest_first(body, frm, edges):
+    """order CFG edges: those whose source is dominated by block `frm` first, nearest (BFS distance from `frm`) first.
+    (a value can reach several `?`: its own, and - as part of the error returned - an enclosing one)"""
+    if len(edges) < 2:
+        return edges
+    dist = {frm: 0}
+    q = [frm]
+    while q:
+        x = q.pop(0)
+        for y in body.succ[x]:
+            if y not in dist:
+                dist[y] = dist[x] + 1
+                q.append(y)
+    return sorted(edges, key=lambda e: (0 if body.dominates(frm, e[0]) else 1, dist.get(e[0], 10 ** 9)))
 
 
 def err_edge_of(body, call, extra_transparent=None):
@@ -574,7 +590,7 @@ def err_edge_of(body, call, extra_transparent=None):
             e = try_edges(body, c.bb)
             if e:
                 edges.append(e[1])
-    return edges
+    return _nearest_first(body, call.bb, edges)
 
 
 def variant_edges(body, local_or_place, at_from=None):
@@ -916,17 +932,32 @@ def int_relation_holds(op, k, lhs, value):
 
 
 # ------------------------------------------------------------------ variant-sensitive reachability
-def variant_reach(body, start, no_nodes=(), no_edges=(), max_states=200000):
+def variant_reach(body, start, no_nodes=(), no_edges=(), max_states=200000, assume=None):
     """Blocks reachable from `start` when the variant of every local that is assigned *whole* ADT aggregates
     (`x = Some(..)` / `x = None`) is tracked along the path and a later `match x` follows only the matching arm.
     Removes the classic infeasible path `let m = if c {Some(..)} else {None}; if let Some(..) = m {..}`.
-    Sound over-approximation otherwise: unknown variant -> all arms; any other write to the local forgets it."""
+    `assume` = {bool local: value} seeds known booleans (e.g. the result of a comparison call): they are propagated through
+    copies and `!`, decide `switchInt` on them, and give `bool::then / then_some` a known variant (Some iff true).
+    Sound over-approximation otherwise: unknown -> all arms; any other write to a tracked local forgets it."""
     tracked = {}
     for bb, bl in enumerate(body.blocks):
         for s in bl["s"]:
             if s[0] == "A" and len(s[1]) == 1 and s[2][0] == "agg" and isinstance(s[2][1], dict) and "vidx" in s[2][1]:
                 tracked.setdefault(s[1][0], True)
-    # a local that is written in any other way (call dest, use, field write, borrowed mutably) is still tracked, but forgotten at that write
+        t = bl["term"]
+        if t["t"] == "call" and t.get("f", "").startswith("core::bool::<impl bool>::then") and t.get("dest") and len(t["dest"]) == 1:
+            tracked.setdefault(t["dest"][0], True)
+    # locals receiving a whole move/copy of a tracked local are tracked too (`let m = if .. {a} else {b}` joins)
+    grew = True
+    while grew:
+        grew = False
+        for bl in body.blocks:
+            for s in bl["s"]:
+                if s[0] == "A" and len(s[1]) == 1 and s[1][0] not in tracked and s[2][0] == "use":
+                    p = op_place(s[2][1])
+                    if p is not None and len(p) == 1 and p[0] in tracked:
+                        tracked[s[1][0]] = True
+                        grew = True
     mut_borrowed = set()
     for bb, bl in enumerate(body.blocks):
         for s in bl["s"]:
@@ -939,7 +970,8 @@ def variant_reach(body, start, no_nodes=(), no_edges=(), max_states=200000):
     seen = set()
     if start in no_nodes:
         return seen_blocks
-    stack = [(start, frozenset())]
+    env0 = frozenset((("b", l), bool(v)) for l, v in (assume or {}).items())
+    stack = [(start, env0)]
     while stack:
         if len(seen) > max_states:
             return body.reachable(start, no_nodes=no_nodes, no_edges=no_edges)
@@ -954,25 +986,42 @@ def variant_reach(body, start, no_nodes=(), no_edges=(), max_states=200000):
             if s[0] != "A":
                 continue
             dst = s[1]
-            if len(dst) == 1 and dst[0] in tracked and s[2][0] == "agg" and isinstance(s[2][1], dict) and "vidx" in s[2][1]:
-                e[dst[0]] = s[2][1]["vidx"]
+            rv = s[2]
+            whole = len(dst) == 1
+            if whole:
+                e.pop(("b", dst[0]), None)
+            if whole and dst[0] in tracked and rv[0] == "agg" and isinstance(rv[1], dict) and "vidx" in rv[1]:
+                e[dst[0]] = rv[1]["vidx"]
             elif dst[0] in tracked:
                 e.pop(dst[0], None)
-            if s[2][0] == "disc" and len(s[2][1]) == 1 and s[2][1][0] in tracked and len(dst) == 1:
-                disc[dst[0]] = s[2][1][0]
-            # moving a tracked local out keeps the variant of the source (moved-from is not read again)
-            if len(dst) == 1 and s[2][0] == "use" and op_place(s[2][1]) is not None and len(op_place(s[2][1])) == 1 and op_place(s[2][1])[0] in e and dst[0] in tracked:
-                e[dst[0]] = e[op_place(s[2][1])[0]]
+            if rv[0] == "disc" and len(rv[1]) == 1 and rv[1][0] in tracked and whole:
+                disc[dst[0]] = rv[1][0]
+            if whole and rv[0] == "use" and op_place(rv[1]) is not None and len(op_place(rv[1])) == 1:
+                src = op_place(rv[1])[0]
+                if src in e and dst[0] in tracked:
+                    e[dst[0]] = e[src]
+                if ("b", src) in e:
+                    e[("b", dst[0])] = e[("b", src)]
+            if whole and rv[0] == "un" and rv[1] == "Not" and op_place(rv[2]) is not None and len(op_place(rv[2])) == 1 and ("b", op_place(rv[2])[0]) in e:
+                e[("b", dst[0])] = not e[("b", op_place(rv[2])[0])]
         t = body.term(bb)
-        if t["t"] == "call" and t.get("dest") and t["dest"][0] in tracked:
-            e.pop(t["dest"][0], None)
+        if t["t"] == "call" and t.get("dest"):
+            d0 = t["dest"][0]
+            e.pop(("b", d0), None)
+            if d0 in tracked:
+                e.pop(d0, None)
+                if t.get("f", "").startswith("core::bool::<impl bool>::then") and len(t["dest"]) == 1 and t.get("args"):
+                    a0 = op_place(t["args"][0])
+                    if a0 is not None and len(a0) == 1 and ("b", a0[0]) in e:
+                        e[d0] = 1 if e[("b", a0[0])] else 0
         succs = list(body.succ[bb])
         if t["t"] == "sw":
             dl = op_local(t["d"])
+            m = {val: x for val, x in t["targets"]}
             if dl in disc and disc[dl] in e and len(op_place(t["d"])) == 1:
-                v = e[disc[dl]]
-                m = {val: x for val, x in t["targets"]}
-                succs = [m.get(v, t["else"])]
+                succs = [m.get(e[disc[dl]], t["else"])]
+            elif dl is not None and ("b", dl) in e and len(op_place(t["d"])) == 1 and t.get("dty") == "bool":
+                succs = [m.get(1 if e[("b", dl)] else 0, t["else"])]
         fe = frozenset(e.items())
         for s_ in succs:
             if s_ in no_nodes or (bb, s_) in no_edges:
